@@ -380,6 +380,13 @@ def solve_obligation(ob, timeout_ms=10000, want_model=True):
     g = ob.goal
     if z3.is_true(g):
         return "proved", "syntactic", 0.0, None
+    if ob.kind == "family":
+        try:
+            from .bigsum import prove_with_congruence
+            if prove_with_congruence(ob.hyps, g, 5000):
+                return "proved", "z3+sum-congruence", time.time() - t0, None
+        except z3.Z3Exception:
+            pass
     s = z3.Solver()
     s.set("timeout", timeout_ms)
     for h in ob.hyps:
@@ -392,6 +399,13 @@ def solve_obligation(ob, timeout_ms=10000, want_model=True):
     if r == z3.sat:
         m = s.model() if want_model else None
         return "refuted", "z3", dt, m
+    # sums: congruence preprocessing (pointwise equal bodies => equal sums), then z3 again
+    try:
+        from .bigsum import prove_with_congruence
+        if "bigsum<" in g.sexpr()[:2000000] and prove_with_congruence(ob.hyps, g, timeout_ms):
+            return "proved", "z3+sum-congruence", time.time() - t0, None
+    except z3.Z3Exception:
+        pass
     # second opinions on the SMT-LIB dump
     smt = s.to_smt2()
     for name, cmd in (("cvc5", ["/usr/bin/cvc5", "--strings-exp", "--tlimit=30000", "--lang=smt2"]),
